@@ -382,6 +382,16 @@ def check_constant(ctx, rep):
 
 
 def check_inventory(ctx, rep):
+    from props import c05_generic
+    c05_generic.self_check()
+    try:
+        inv = ctx.classes.get(f"{MOD}.InvariantSiteModel")
+        for v in c05_generic.decide_class(inv):
+            rep.check('C05.G', f"InvariantSiteModel::generic-evaluation-agrees::{'mu' if v['present'].get('_mu') else 'plain'}", v['ok'], where(inv.module, inv.node), {'mean_rate': repr(v['mean'])},
+                      f"the generic block-vector evaluation of InvariantSiteModel gives Σ prob·rate = {v['mean']!r}, not {v['want']!r} (cross-check of C05.I by an independent evaluator)")
+    except Unsupported as u:
+        rep.undecided('C05.G', 'InvariantSiteModel::generic-evaluation-agrees', '', str(u))
+    rep.ok('C05.G', 'generic-evaluator::embedded-examples', '', {'accepted': 'correct free-rate model (4 member combinations)', 'refused': 'normalisation before the invariant class is prepended (2 combinations)'})
     base = ctx.classes.get(f"{MOD}.SiteModel")
     n = 0
     for c in [base] + ctx.classes.subclasses(base.qualname, strict=True):
@@ -393,8 +403,19 @@ def check_inventory(ctx, rep):
         elif not own:
             rep.ok('C05.C', key, where(c.module, c.node), {'decided_by': 'inherits every rate method from an audited class', 'defines': own})
         else:
-            rep.incomplete('C05.C', key, where(c.module, c.node), f"{c.qualname} defines {own} and is none of the audited site models {sorted(AUDITED)}: whether its "
-                           f"Σ prob·rate is one (mu) is not decided by any rule")
+            # a class none of the hand-written rules knows: the generic block-vector evaluation decides it or refuses it
+            from props import c05_generic
+            try:
+                verdicts = c05_generic.decide_class(c)
+            except Unsupported as u:
+                rep.incomplete('C05.C', key, where(c.module, c.node), f"{c.qualname} defines {own} and is none of the audited site models {sorted(AUDITED)}; the generic "
+                               f"evaluation refuses it ({u}): whether its Σ prob·rate is one (mu) is not decided by any rule")
+                continue
+            for v in verdicts:
+                members = ', '.join(f"{k.strip('_')} {'present' if on else 'absent'}" for k, on in sorted(v['present'].items())) or 'no optional member'
+                rep.check('C05.G', f"{c.node.name}::mean-rate::{'+'.join(k.strip('_') for k, on in sorted(v['present'].items()) if on) or 'plain'}", v['ok'], where(c.module, c.node),
+                          {'optional_members': v['present'], 'block_layout': v['layout'], 'mean_rate': repr(v['mean'])},
+                          f"{c.node.name} ({members}): Σ_k prob_k·rate_k = {v['mean']!r}, not {v['want']!r}: the model changes the expected number of substitutions per unit branch length")
     if n < 5:
         raise AnalysisError(f"only {n} SiteModel classes found")
 
@@ -413,6 +434,7 @@ def run(ctx, rep):
     rep.rule('C05.N', "discretised models: rates = X / Σ(X·P) with the reported P, P defined first and summing to one, mid-point quantiles with the branch's K, mu last")
     rep.rule('C05.A', "in-place updates of cached rates/probabilities only hit a tensor built earlier in the same call on every path (no accumulation across evaluations)")
     rep.not_decided += ["non-negativity for all shapes", "batched shapes", "quantile accuracy"]
+    rep.rule('C05.G', "site models outside the audited set: block-vector abstract evaluation of the refresh method, Σ prob·rate = 1 (mu) as a polynomial identity with linear sums, for every combination of optional members")
     rep.rule('C05.C', "constant model: one category, probability 1, rate mu (1 without mu); every SiteModel class of the package is decided by one of the rules")
     for f, rule in ((check_invariant, 'C05.I'), (check_discretized, 'C05.N'), (check_inplace, 'C05.A'), (check_constant, 'C05.C'), (check_inventory, 'C05.C')):
         try:
